@@ -46,12 +46,18 @@ Proof.
   destruct sc as [|f r]; [congruence|]. intros H _. cbn [add_variable variables frame_lookup frame_set assoc]. now rewrite H.
 Qed.
 
+(* an unbound interpolation @{name} fails too *)
+Lemma unbound_interp_is_error fuel sc x rest :
+  is_interp x = true -> variables (interp_name x) sc = None ->
+  eval_value (S fuel) sc (VVar x :: rest) = RError $"SyntaxError" ($"Unknown escaped variable " ++ x).
+Proof. intros Hi H. cbn [eval_value eval_toks eval_tok]. unfold lookup_with. now rewrite Hi, H. Qed.
+
 (* an unbound reference makes evaluation fail instead of emitting the @name *)
 Lemma unbound_is_error fuel sc x rest :
-  variables x sc = None -> (match x with "@" :: "@" :: _ => False | _ => True end) ->
+  variables x sc = None -> (match x with "@" :: "@" :: _ => False | _ => True end) -> is_interp x = false ->
   eval_value (S fuel) sc (VVar x :: rest) = RError $"SyntaxError" ($"Unknown variable " ++ x).
 Proof.
-  intros H Hx. cbn [eval_value eval_toks eval_tok]. unfold lookup_with. rewrite H.
+  intros H Hx Hi. cbn [eval_value eval_toks eval_tok]. unfold lookup_with. rewrite Hi, H.
   destruct x as [|c [|d r]]; try reflexivity.
   - destruct c as [[] [] [] [] [] [] [] []]; reflexivity.
   - destruct c as [[] [] [] [] [] [] [] []]; try reflexivity;
